@@ -8,8 +8,8 @@ for d in sorted(glob.glob(os.path.join(os.path.dirname(os.path.dirname(os.path.a
     conf = m.get('confirmed_by_me', {})
     first = next((r for r in runs if r.get('detected')), None)
     status = 'caught' if last.get('detected') else ('missed' if last.get('rc') == 0 else 'rc=%s' % last.get('rc'))
-    line = (last.get('lines') or [''])[0]
-    what = line.split('#', 1)[1].strip()[:110] if '#' in line else ''
+    line = next((l for l in (last.get('lines') or []) if l.startswith('VIOLATION')), '')
+    what = line.split('#', 1)[1].strip()[:140] if '#' in line else ''
     rows.append('| %s | %s | %s | %s | %s |' % (os.path.basename(d), (m.get('summary') or '')[:150].replace('|', '/').replace('\n', ' '), 'yes' if conf.get('tests_pass') and conf.get('demo_with_change_rc') and conf.get('demo_pristine_rc') == 0 else 'n/a', status, what.replace('|', '/')))
 print('| seed | change (author\'s summary) | confirmed (tests pass, demo fails with / passes without) | last check run | reported as |')
 print('|---|---|---|---|---|')
